@@ -28,6 +28,7 @@ func (s *ChunkStorage) markProcessed(id ChunkID) bool {
 	defer s.Unlock()
 	_, ok := s.processed[id]
 	s.processed[id] = struct{}{}
+	verifYield("cs.mark", "id", id, "was", ok)
 	return ok
 }
 
@@ -38,6 +39,7 @@ func (s *ChunkStorage) unmarkProcessed(id ChunkID) {
 	s.Lock()
 	defer s.Unlock()
 	delete(s.processed, id)
+	verifYield("cs.unmark", "id", id)
 }
 
 // StoreChunk stores a single chunk in a synchronous manner.
